@@ -88,6 +88,14 @@ def correspondence(ctx, model_ok):
             r.count('gate_types', t)
         for x in case['acs']:
             r.count('full_result', x['full'][1] if x['full'][0] == 'err' else 'ok')
+    if not ctx.quick:
+        # thorough: EXHAUSTIVE enumeration of all netlists with <= 2 inputs and <= 2 gates over a reduced type set
+        for dump in gen.tiny_netlists():
+            case = evalcorr.make_case(ctx.rng, dump, n_assign=16, n_vec=4)
+            cases.append(case)
+            r.add_case(case, any(t != 'INPUT' for _, t, _ in dump['gates']))
+            r.count('stream', 'exhaustive-tiny')
+        r.notes.append('thorough tier enumerated all 908 netlists with <= 2 inputs and <= 2 gates over ' + str(gen.TINY_TYPES))
     r._cases = cases
     if model_ok:
         bad = coqrun.run_cases(ID, 'eval', evalcorr.HEADER, [evalcorr.case_term(c) for c in cases],
